@@ -422,6 +422,42 @@ func init() {
 		out = append(out, mkStr(hay[:len(hay):len(hay)]))
 		return out
 	}
+	intrinsics["strings.Fields"] = func(st *pstate, fr *frame, fn *ssa.Function, args []value) value {
+		if s, ok := args[0].(string); ok {
+			parts := strings.Fields(s)
+			out := make([]value, len(parts))
+			for i, p := range parts {
+				out[i] = p
+			}
+			return out
+		}
+		// symbolic: split at ASCII white space, forking per byte; a byte >= 0x80 would need rune decoding
+		b := strBytes(args[0])
+		const sp = "\t\n\v\f\r "
+		var out []value
+		start := -1
+		for i, x := range b {
+			if si, ok := x.(symInt); ok {
+				if !st.branch("(bvult " + si.t + " #x80)") {
+					panic(unsupported("strings.Fields: non-ASCII byte"))
+				}
+			} else if x.(uint8) >= 0x80 {
+				panic(unsupported("strings.Fields: non-ASCII byte"))
+			}
+			if st.branch(inSetTerm(x, sp)) {
+				if start >= 0 {
+					out = append(out, mkStr(b[start:i:i]))
+					start = -1
+				}
+			} else if start < 0 {
+				start = i
+			}
+		}
+		if start >= 0 {
+			out = append(out, mkStr(b[start:len(b):len(b)]))
+		}
+		return out
+	}
 	intrinsics["strings.Join"] = func(st *pstate, fr *frame, fn *ssa.Function, args []value) value {
 		elems, _ := args[0].([]value)
 		sep := strBytes(args[1])
@@ -734,4 +770,12 @@ func sortInt64s(a []int64) {
 			a[j], a[j-1] = a[j-1], a[j]
 		}
 	}
+}
+
+func inSetTerm(b value, set string) string {
+	alts := []string{}
+	for i := 0; i < len(set); i++ {
+		alts = append(alts, byteEq(b, set[i]))
+	}
+	return tOr(alts...)
 }
